@@ -142,6 +142,34 @@ static void check_structured_masks(World &w) {
     delete_gate_bootstrapping_ciphertext_array(4, x);
 }
 
+// chosen values of the rounded body of the gate's internal combination (the rotation amount of the test polynomial): the first
+// operand is re-encrypted until konst/8 + ca*a.b + cb*b.b rounds to the wanted multiple of 1/2N (0, 1, N-1, N, N+1, 2N-1; one try
+// in 2N succeeds, and a try costs an encryption only)
+static void check_rounded_body_targets(World &w) {
+    const int N2 = 2 * w.params->tgsw_params->tlwe_params->N;
+    LweSample *x = new_gate_bootstrapping_ciphertext_array(4, w.params);
+    const int targets[] = {0, 1, N2 / 2 - 1, N2 / 2, N2 / 2 + 1, N2 - 1};
+    uint64_t done = 0;
+    for (int g = 0; g < G_MUX; g++) for (int ti = 0; ti < 6; ti++) {
+        int va = (int) rng.below(2), vb = (int) rng.below(2);
+        bootsSymEncrypt(x + 1, vb, w.sk);
+        bool found = false;
+        for (int tries = 0; tries < 40 * N2 && !found; tries++) {
+            bootsSymEncrypt(x, va, w.sk);
+            U comb = (U) GATES[g].konst8 * (1u << 29) + (U) GATES[g].ca * (U) x[0].b + (U) GATES[g].cb * (U) x[1].b;
+            found = (int) ref_modswitch(comb, N2) == targets[ti];
+        }
+        if (!found) continue;
+        VH_OP("boots%s:%s:rounded-body=%d", GATES[g].name, w.cfg.c_str(), targets[ti]);
+        gate_eval(g, x + 3, x, x + 1, x + 2, va, w.ck);
+        out.evaluations++; done++;
+        if (bootsSymDecrypt(x + 3, w.sk) != gate_truth(g, va, vb, 0))
+            out.viol(std::string("gate:wrong-output:") + GATES[g].name, J().s("gate", GATES[g].name).s("config", w.cfg).i("a", va).i("b", vb).s("class_a", "fresh, chosen so that the combination's body rounds to a given value").i("rounded_body", targets[ti]));
+    }
+    char cell[128]; snprintf(cell, sizeof cell, "%s:rounded-body-of-the-combination-in{0,1,N-1,N,N+1,2N-1}", w.cfg.c_str()); out.cell(cell, done);
+    delete_gate_bootstrapping_ciphertext_array(4, x);
+}
+
 // the same ciphertext object in two (or three) operand roles: gate(r, a, a), MUX(r, a, a, c), MUX(r, a, b, a), MUX(r, a, b, b),
 // MUX(r, a, a, a). Operands are inputs only, so sharing one object between them is ordinary use.
 static void check_shared_operands(World &w, int cls) {
@@ -218,6 +246,7 @@ int main(int argc, char **argv) {
     for (int v = 0; v < 8; v++) for (auto &t: triples) check_gate(w, G_MUX, v & 1, (v >> 1) & 1, (v >> 2) & 1, t[0], t[1], t[2]);
     for (int cls: {FRESH, BOOT, CONST, INJ_P, INJ_M}) { if (level == "lite" && cls != FRESH && cls != INJ_M) continue; check_shared_operands(w, cls); }
     if (level != "lite" || lambda > 80) check_structured_masks(w);
+    check_rounded_body_targets(w);
     // NOT / COPY / CONSTANT
     for (int va = 0; va < 2; va++) for (int cls = 0; cls < NCLASS; cls++) { check_gate(w, G_NOT, va, 0, 0, cls, FRESH, FRESH); check_gate(w, G_COPY, va, 0, 0, cls, FRESH, FRESH); }
     check_gate(w, G_CONSTANT, 0, 0, 0, CONST, FRESH, FRESH); check_gate(w, G_CONSTANT, 1, 0, 0, CONST, FRESH, FRESH);
